@@ -381,6 +381,10 @@ def judge_mixed(x, y, cell, profile, out):
         exp = outcome(V.MATH[op], x, y)
         if op == "-" and exp[0] == "ok" and not arrays_in_domain(x, y):
             exp = ("unspec",)
+        if op == "/" and isinstance(x, Str) and isinstance(y, Str) and not x.text and len(y.b) == 0:
+            # "each character of the input": the manual does not say what a character of a BYTE string is
+            # (jaq splits at UTF-8 boundaries); only the join-inverse below is judged
+            exp = ("unspec",)
         out["ops"] += 1
         if exp[0] == "unspec":
             out["unspec"] += 1
@@ -550,8 +554,11 @@ def check_repr(c, ns, profile, out):
             raise SystemExit("HARNESS BUG (repr program): " + str(r["compile_error"].get("report"))[:1500])
         res = r["results"][0]
         if res.get("panic") or res["end"][0] != "end" or len(res["outs"]) != len(chunk):
-            for n in chunk:
-                repr_single(c, n, profile, out)
+            if len(chunk) > 1:          # isolate the integer first, then the consumer
+                for n in chunk:
+                    check_repr(c, [n], profile, out)
+            else:
+                repr_single(c, chunk[0], profile, out)
             continue
         for n, o in zip(chunk, res["outs"]):
             judge_repr(n, o[0], profile, out)
